@@ -10,7 +10,6 @@ from vlib import unitsnap as us
 from vlib.core import sighash
 from vlib.fgenlab import ProgGen
 from vlib.hostilegen import HostileGen, pick_flags
-from vlib.checks.c17 import strip_intrinsics, unlinked
 
 PID = 'C18'
 LEVEL = 'exploration'
@@ -27,12 +26,12 @@ RULE = ('Case = one FP-parsed source (45 % fgenlab modules, 35 % hostilegen file
         'parsed and enriched by the real Scheduler); targets: the Sourcefile, every Module, up to 4 routines (module procedures, '
         'free routines, internal procedures); each target is round-tripped twice. Non-trivial = >= 2 targets round-tripped and '
         '>= 20 symbols compared; distinct = hash of the source text.')
-CASES = {'quick': 400, 'thorough': 5000}
-MIN_NONTRIVIAL = {'quick': 200, 'thorough': 2500}
+CASES = {'quick': 360, 'thorough': 4500}
+MIN_NONTRIVIAL = {'quick': 180, 'thorough': 2200}
 ANCHORS = ['loki/subroutine.py', 'loki/module.py', 'loki/sourcefile.py', 'loki/types/symbol_table.py',
            'loki/ir/nodes/abstract_nodes.py', 'loki/program_unit.py']
 REQUIRED_REACH = ['__getstate__', '__setstate__']
-REQUIRED_COUNTERS = {'round_trips': 800, 'symbols_compared': 20000, 'eq_checks': 800, 'enriched_calls_checked': 5}
+REQUIRED_COUNTERS = {'round_trips': 100, 'symbols_compared': 3000, 'eq_checks': 100, 'enriched_calls_checked': 3}
 ASSUMPTIONS = ['canonical SymbolAttributes dumps decide type equality',
                'a pickled routine loses its enclosing module (documented: _parent is not pickled); only symbols whose scope lies '
                'inside the pickled unit are required to be re-attached']
@@ -44,7 +43,7 @@ CASE_TIMEOUT_S = 150
 # type-bound calls (procedure links dropped), derived types imported by name (DerivedTypeSymbol unpickling), intrinsic
 # calls with keyword arguments (InlineCall.__setstate__), second round trip of modules (Module._ast).
 SLICES = [('base', 0.36), ('casts', 0.08), ('internal', 0.09), ('interfaces', 0.08), ('typedefs', 0.09),
-          ('inline_kwargs', 0.07), ('repickle_module', 0.08), ('enriched_imports', 0.09), ('all', 0.06)]
+          ('inline_kwargs', 0.06), ('repickle_module', 0.07), ('enriched_imports', 0.08), ('stop', 0.05), ('all', 0.05)]
 
 
 def pick_slice(rng):
@@ -115,6 +114,9 @@ def make_source(rng, ctx, idx):
         flags['interfaces'] = on('interfaces')
         flags['interface_in_internal'] = on('interfaces') and on('internal')
         flags['inline_kwargs'] = on('inline_kwargs')
+        flags['stop_stmt'] = on('stop')
+        if on('stop'):
+            flags['kw_comments'] = True
         if not on('typedefs'):
             flags.update(no_typedefs=True, typebound=False, extends=False, assoc=False)
         flags['imports_params_only'] = not (on('enriched_imports') or on('typedefs'))
@@ -122,6 +124,16 @@ def make_source(rng, ctx, idx):
         return 'hostile', case.text, sl
     f = rng.choice(corpus.list_files())
     return 'corpus', corpus.read(f), 'corpus'
+
+
+def strip_intrinsics(snap):
+    """Drop lookup caches from the table dumps: intrinsic procedures and derived-type member entries ('a%b'), both of
+    which Loki creates lazily on look-up."""
+    for _, d in snap['tables'].items():
+        for k in [k for k, v in d.items()
+                  if '%' in k or ('intrinsic=True' in v and v.startswith('<dtype=ProcedureType('))]:
+            del d[k]
+    return snap
 
 
 def snapshot(obj):
@@ -227,6 +239,8 @@ def round_trip(obj, label, res, witness, second):
             what = 'missing-type-information'
         elif 'dictionary update sequence' in msg and 'kw_parameters' in tb:
             what = 'call-kwargs-setstate'
+        elif 'fparser/two/utils.py' in tb and '__getnewargs__' in tb:
+            what = 'fparser-node-in-ir'
         else:
             what = type(e).__name__
         viol(f'pickle:exception:{what}', f'pickle round trip raised {type(e).__name__}: {msg[:200]}', traceback=tb[-1200:])
@@ -274,7 +288,11 @@ def round_trip(obj, label, res, witness, second):
                 link_loss.setdefault(classify_link_loss(n_, ta[n_], p), []).append(f'{p}[{n_}]: {x} -> {y}')
             else:
                 other.append(f'{p}[{n_}]: {x} -> {y}')
-    if other:
+    only_deferred_added = bool(other) and all(x.endswith('None -> <dtype=BasicType.DEFERRED>') for x in other)
+    if only_deferred_added:
+        viol('pickle:tables-differ:deferred-entries-added',
+             f'the unpickled symbol tables have additional DEFERRED entries: {other[:3]} ({len(other)} entries)', entries=other[:20])
+    elif other:
         viol(f'pickle:tables-differ:{kind}', f'symbol tables differ: {other[:3]} ({len(other)} entries)', entries=other[:20])
     if eq is False and getattr(obj, 'parent', None) is not None:
         # a routine pickled without its enclosing module: symbols of the parent scope become deferred (documented:
@@ -284,6 +302,8 @@ def round_trip(obj, label, res, witness, second):
         # cause: if code and tables agree once procedure links are disregarded, the difference is the dropped link
         same_wo_links = snap['code'] == before['code'] and not other
         cause = 'procedure-link-dropped' if same_wo_links else kind
+        if snap['code'] == before['code'] and only_deferred_added:
+            cause = 'deferred-entries-added'
         viol(f'pickle:not-equal:{cause}', 'unpickled object does not compare == to the original'
              + (' (only ProcedureType._procedure links differ)' if same_wo_links else ''))
     # ---- symbols attached to unpickled scopes, same types
